@@ -22,6 +22,7 @@ package c08
 import (
 	"crypto/sha256"
 	"fmt"
+	"runtime/debug"
 	"sort"
 	"strings"
 	"sync"
@@ -360,6 +361,12 @@ func run(r *core.Run) {
 	if r.Thorough() {
 		depth, fullDepth = 6, 5
 	}
+	// Every transition allocates a whole runtime (short-lived garbage) while
+	// the live heap (state sets) reaches a few hundred MB at the last thorough
+	// level: with the default GOGC the collector re-marks that live heap every
+	// few hundred transitions.  Trade memory for CPU, with a hard ceiling.
+	defer debug.SetGCPercent(debug.SetGCPercent(400))
+	defer debug.SetMemoryLimit(debug.SetMemoryLimit(5 << 30))
 	ops := alphabet(r.Thorough())
 	e := &explorer{r: r, ops: ops}
 
